@@ -354,10 +354,15 @@ impl<T: Send> Sender<T> {
 
 impl<T: Send> Clone for Sender<T> {
   fn clone(&self) -> Self {
-    self.shared.add_sender();
+    // A handle whose close() succeeded no longer counts as a sender: its clone
+    // must not re-open a channel whose receiver may already have seen Disconnected.
+    let closed = self.closed.load(Ordering::Relaxed);
+    if !closed {
+      self.shared.add_sender();
+    }
     Sender {
       shared: Arc::clone(&self.shared),
-      closed: AtomicBool::new(false),
+      closed: AtomicBool::new(closed),
     }
   }
 }
@@ -489,10 +494,15 @@ impl<T: Send> AsyncSender<T> {
 
 impl<T: Send> Clone for AsyncSender<T> {
   fn clone(&self) -> Self {
-    self.shared.add_sender();
+    // A handle whose close() succeeded no longer counts as a sender: its clone
+    // must not re-open a channel whose receiver may already have seen Disconnected.
+    let closed = self.closed.load(Ordering::Relaxed);
+    if !closed {
+      self.shared.add_sender();
+    }
     AsyncSender {
       shared: Arc::clone(&self.shared),
-      closed: AtomicBool::new(false),
+      closed: AtomicBool::new(closed),
     }
   }
 }
